@@ -378,5 +378,5 @@ def replay(case: Any) -> List[Tuple[str, str]]:
     if case.get("lenient"):
         def lenient_unit(u: Any) -> Part:
             return unit_fn((u[0], u[1], "lenient"))
-        return replay_with(lenient_unit, case)
-    return replay_with(unit_fn, case)
+        return replay_with(lenient_unit, case, PROPERTY)
+    return replay_with(unit_fn, case, PROPERTY)
